@@ -1,6 +1,7 @@
 package main
 
 import (
+	"regexp"
 	"encoding/json"
 	"fmt"
 	"reflect"
@@ -38,6 +39,13 @@ type c09SPM struct {
 	N int
 }
 
+// c09PVS reaches c09SPM (which holds a pointer-receiver Marshaler) through a pointer and as
+// a plain field: in both places the value is addressable when &c09PVS is marshalled
+type c09PVS struct {
+	A *c09SPM `json:"a,omitempty"`
+	Z c09SPM  `json:"z"`
+}
+
 type c09type struct {
 	name   string
 	t      reflect.Type
@@ -54,6 +62,7 @@ func c09types() []c09type {
 		{"U2", c09U2(), `{"X":{"a":1},"Y":true}`, `{"X":[1]}`, `{"X":{"a":1},"Y":true}`},
 		{"SPM", reflect.TypeOf(c09SPM{}), `{"X":[1],"N":2}`, `{"N":"x"}`, `{"N":2}`},
 		{"Rec", reflect.TypeOf(gen.Rec{}), `{"V":1,"next":{"V":2,"kids":[{"V":3}]}}`, `{"V":1,"next":[1]}`, `{"V":1,"next":{"V":2,"kids":[{"V":3}]}}`},
+		{"PVS", reflect.TypeOf(c09PVS{}), `{"a":{"X":[1],"N":1},"z":{"X":[2],"N":2}}`, `{"a":[1]}`, `{"a":{"N":1},"z":{"N":2}}`},
 		{"Deep", reflect.TypeOf(gen.Deep{}), `{"L1":{"L2":{"L3":{"L4":{"L5":{"V":9}}}}}}`, `{"L1":{"L2":{"L3":{"L4":{"L5":{"V":"x"}}}}}}`, `{"L1":{"L2":{"L3":{"L4":{"L5":{"V":9}}}}}}`},
 	}
 }
@@ -121,7 +130,7 @@ func c09ops() []c09op {
 		}))
 		add("Pretouch("+t.name+")", false, guard(func() string { return errLine(sonic.Pretouch(t.t)) }))
 	}
-	deep := ts[6].t
+	deep := ts[7].t
 	rec := ts[5].t
 	for _, o := range [][2]int{{1, 0}, {1, 1}, {3, 2}, {0, 0}} {
 		o := o
@@ -144,7 +153,8 @@ func c09ops() []c09op {
 	many("U1,U2", 2, 3)
 	many("U2,U1", 3, 2)
 	many("A1,U1,A2", 0, 2, 1)
-	many("SPM,Rec,Deep", 4, 5, 6)
+	many("SPM,Rec,Deep", 4, 5, 7)
+	many("PVS,SPM", 6, 4)
 	return ops
 }
 
@@ -155,6 +165,10 @@ func pretouchMany(l []reflect.Type) error {
 	}
 	return decoderPretouchMany(l)
 }
+
+var c09pmRe = regexp.MustCompile(`\[(-?\d+),"pm"\]`)
+
+func c09pmNorm(s string) string { return c09pmRe.ReplaceAllString(s, `{"V":$1}`) }
 
 type c09case struct {
 	Ops []string `json:"ops"`
@@ -224,7 +238,16 @@ func init() {
 		if strings.HasPrefix(got, "PANIC") {
 			cls = "panic"
 		}
-		return &ev.Violation{Property: "C09", Key: fmt.Sprintf("history:%s after [%s]: %s", ops[h[bad]].name, strings.Join(pre, ","), cls),
+		key := fmt.Sprintf("history:%s after [%s]: %s", ops[h[bad]].name, strings.Join(pre, ","), cls)
+		// root cause with an exact predicate: the two outputs are equal once every rendering of
+		// the pointer-receiver Marshaler gen.PM ([v,"pm"] through the method, {"V":v} without
+		// it) is normalised, i.e. the only difference is whether the method was applied: the
+		// encoder's program cache is keyed by type alone and serves the program compiled for
+		// the first occurrence's addressability to every later occurrence
+		if exp := soloOf()[h[bad]]; strings.HasPrefix(ops[h[bad]].name, "Marshal(") && exp != got && c09pmNorm(exp) == c09pmNorm(got) {
+			key = "history:Marshal: pointer-receiver-marshaler applied-or-not depending on the addressability of the occurrence compiled first (encoder program cache keyed by type only)"
+		}
+		return &ev.Violation{Property: "C09", Key: key,
 			What: "an operation's result depends on what the process did before", Case: ev.J(c09case{names(h[:bad+1])}),
 			Expected: clipS(soloOf()[h[bad]], 300) + "   (same op right after a cache reset)", Observed: clipS(got, 300)}
 	}
